@@ -239,7 +239,11 @@ def main(tier, seed, replay_case=None):
         'pretty', 'minify', 'obfuscate']
     name_styles = [('out.js', 'out.js.map', 'src.js'),
                    ('/tmp/build/out.js', '/tmp/build/maps/out.js.map',
-                    '/tmp/src/in.js')]
+                    '/tmp/src/in.js'),
+                   # absolute output and map, relative source (a tree read
+                   # from a relatively named stream)
+                   ('/tmp/build/out.js', '/tmp/build/out.js.map',
+                    'src/in.js')]
     records = []
     info = {}
     nontrivial = set()
